@@ -51,7 +51,7 @@ CHECKS = {
          "DESIGN.md §5 C07"),
  "C09": ("mc-graph", "model_checking",
          "exhaustive enumeration of contributor multisets and all their permutations on the real TypeAggregator against a reference merge",
-         "All multisets of 2..4 (quick) / 2..5 (thorough) contributors from a 24-contributor universe (a:b/i at 13 versions incl. multi-digit and prefix-trap versions, a hand-written contributor whose exports share one type index with overlapping/disjoint/conflicting export sets, equal and conflicting functions, a kind clash on one track, nested instances, and WIT-derived interfaces that `use` a type of a compatible or incompatible version of another merged interface), each decoded into its own Types collection, and every permutation of each, are aggregated. Checked: verdict equals the reference merge and is the same for every permutation; the name->canonical-type map is the same for every permutation; the canonical name is the highest version of its track and every lower name redirects to it; the merged type satisfies every contributor (fresh SubtypeChecker); re-aggregating every contributor changes nothing; no panic.",
+         "All multisets of 2..4 (quick) / 2..5 (thorough) contributors from a 24-contributor universe (a:b/i at 13 versions incl. multi-digit and prefix-trap versions, a hand-written contributor whose exports share one type index with overlapping/disjoint/conflicting export sets, equal and conflicting functions, a kind clash on one track, nested instances, and WIT-derived interfaces that `use` one or two types of a compatible or incompatible version of another merged interface, so that one contributor has a `use` the other lacks), each decoded into its own Types collection, and every permutation of each, are aggregated. Checked: verdict equals the reference merge and is the same for every permutation; the name->canonical-type map is the same for every permutation; the canonical name is the highest version of its track and every lower name redirects to it; the merged type satisfies every contributor (fresh SubtypeChecker); re-aggregating every contributor changes nothing; no panic.",
          "Trusts the reference merge (A.3) and, for satisfaction, wac's SubtypeChecker (tied to the reference validator by C07). For mixes of hand-described and WIT-derived contributors the reference gives no verdict on success/failure (counted as unspecified) but all order-independence and law checks still apply.",
          "DESIGN.md §5 C09, A.3"),
  "C10": ("mc-graph", "exploration",
@@ -66,7 +66,7 @@ CHECKS = {
          "DESIGN.md §5 C01, §8"),
  "C02": ("mc-graph", "translation_validation",
          "explicit-state BFS over constructive graph operations (E1) + independent section-level re-reading of every encoding (E2), provenance equality",
-         "Every composition reachable by instantiate/alias/import/set-argument/export/name within depth 3 (quick) / 4 (thorough) from 8 seed states over a library built for ambiguity (same-typed slots and candidates, one package name at two versions, one package instantiated several times, diamonds, aliases of aliases of nested instances, multi-name exports, a package exporting a resource and a record type aliased from two of its instantiations) is encoded in both dependency modes; each encoding is re-read by an independent walker that rebuilds the index spaces with provenance, and the multiset of instantiations with per-name argument provenance, export bindings, alias sources, embedded component hashes (each once, byte-identical) and name-section entries must equal the graph's denotation read through public queries.",
+         "Every composition reachable by instantiate/alias/import/set-argument/export/name within depth 3 (quick) / 4 (thorough) from 8 seed states over a library built for ambiguity (same-typed slots and candidates, one package name at two versions, one package instantiated several times, diamonds, aliases of aliases of nested instances, multi-name exports, a package exporting a resource and a record type aliased from two of its instantiations, a package importing a component, so that explicit imports of component kind sit in the component index space) is encoded in both dependency modes; each encoding is re-read by an independent walker that rebuilds the index spaces with provenance, and the multiset of instantiations with per-name argument provenance, export bindings, alias sources, embedded component hashes (each once, byte-identical) and name-section entries must equal the graph's denotation read through public queries.",
          "Trusts the E2 reader (harness/mc-core/src/e2.rs, over wasmparser payloads) and wasmparser's validator for types. Implicit imports are identified up to their semver track here (C03 pins the name).",
          "DESIGN.md §4 E2, §5 C02, A.2"),
  "C03": ("mc-graph", "model_checking",
